@@ -285,6 +285,31 @@ def run(ctx):
                  nontrivial=(ra != 4 or rb != 4))
         ctx.sample({"segment": segment, "bounds": bounds}, tag=classes[-2] if len(classes) > 2 else classes[0], per_tag=1)
         one_case(ctx, mon, segment, bounds)
+        # history: the SAME bounds object is re-used (and changed in place) for further segments, and the
+        # same segment is clipped again after the rectangle changed
+        if rng.random() < 0.15:
+            shared = [list(bounds[0]), list(bounds[1])]
+            for step in range(rng.randint(2, 4)):
+                _c2, seg2, b2 = gen_case(rng)
+                k = rng.randrange(3)
+                if k == 0:
+                    seg_use = seg2                       # another segment, same rectangle object
+                elif k == 1:
+                    seg_use = segment                    # same segment, rectangle changed in place
+                    axis = rng.randrange(2)
+                    lo, hi = shared[0][axis], shared[1][axis]
+                    span = (hi - lo) or abs(hi) or 1.0
+                    if rng.random() < 0.5:
+                        shared[1][axis] = hi + span * rng.choice((0.5, 1, -0.25))
+                    else:
+                        shared[0][axis] = lo - span * rng.choice((0.5, 1, -0.25))
+                    if shared[0][axis] > shared[1][axis]:
+                        shared[0][axis], shared[1][axis] = shared[1][axis], shared[0][axis]
+                else:
+                    seg_use = [list(segment[1]), list(segment[0])]      # the same segment reversed
+                ctx.case(["history: rectangle object re-used / changed in place", "history kind %d" % k],
+                         ("h", tuple(seg_use[0]), tuple(seg_use[1]), tuple(shared[0]), tuple(shared[1]), step))
+                one_case(ctx, mon, seg_use, shared)
     ctx.extra["max_loop_iterations_observed"] = [mon.max_iterations]
     pairs = 0
     for a in range(9):
@@ -295,7 +320,7 @@ def run(ctx):
     for cls in ("rect:lattice", "rect:zero-width rectangle", "rect:zero-area rectangle", "rect:continuous",
                 "rect:page at origin", "zero-length segment", "vertical segment", "horizontal segment",
                 "collinear with an edge", "through a corner", "endpoint on a corner",
-                "answer:accept", "answer:reject", "scale:huge (1e60..1e160)", "scale:tiny (1e-170..1e-12)",
+                "answer:accept", "answer:reject", "history: rectangle object re-used / changed in place", "scale:huge (1e60..1e160)", "scale:tiny (1e-170..1e-12)",
                 "grazing (inside only within tolerance): either answer accepted"):
         ctx.need(cls, 100)
     ctx.need("monitor:clip_segment evaluated", 20_000)
